@@ -329,6 +329,13 @@ def numpy_item(bs, rate, nb, props, opts=None):
         mm, fs = setup_path(opts.get('version', '0.2.5'))
         C = mm['conversion']
         dims = sym_dims(E, bs, nb)
+        import symx.core as _core0
+        from symx import fpworld as _fw0
+        _core0.FP_MODE[0] = False      # (globals of the worker process: an earlier float item must not leak into this one)
+        _fw0.reset()
+        if opts.get('fixed_dims'):
+            E.assume(b_and(*[dims[k] == opts['fixed_dims'][k] for k in range(3)]))
+            dims = tuple(int(d) for d in dims)
         cube = src_cube(dims)
         kw = {}
         hdr_fields = opts.get('headers', ())
@@ -356,11 +363,37 @@ def numpy_item(bs, rate, nb, props, opts=None):
             z0 = E.fresh('z0', -32768, 32767)
             dz = E.fresh('dz_ms', 1, 65)
             kw['samples'] = LazyArr((dims[2],), lambda idx: z0 + idx[0] * dz, 'num', 'i8')
-        with Quiet():
-            conv = C.NumpyConverter(cube, **kw)
-            if opts.get('runs') == 2:      # the same converter object used for an earlier output (another bit rate)
-                conv.run('first.sgz', bits_per_voxel=4, blockshape=(4, 4, -1))
-            conv.run('out.sgz', bits_per_voxel=opts.get('bpv_in', rate), blockshape=opts.get('bs_in', bs))
+        fp_model = None
+        if opts.get('samples') == 'fp':
+            # binary64 sample axis handed over by the caller: t0 + k * (interval_us / 1000.0), any interval 1..65535 us (no SEG-Y
+            # field in between on this route); decided in the float world like the SEG-Y items
+            import symx.core as _core
+            from symx import fpworld as _fw
+            from symx.symfloat import SymFloat, to_fp
+            _core.FP_MODE[0] = True
+            _fw.reset()
+            _fw.CFG.update(z3_ms=20000, cvc5_s=opts.get('cvc5_s', 300), use_cvc5=True)
+            t0 = E.fresh('t0_ms', *opts.get('t0_range', (-2, 2)))
+            dtu = E.fresh('dt_us', *opts.get('dt_range', (1, 65535)))
+            step = SymFloat(to_fp(dtu)) / 1000.0
+            kw['samples'] = LazyArr((dims[2],), lambda idx: step * idx[0] + t0, 'num', 'f8')
+
+            class _M:
+                pass
+            fp_model = _M()
+            fp_model.dt_us_fp, fp_model.t0_ms = dtu, t0
+        try:
+            with Quiet():
+                conv = C.NumpyConverter(cube, **kw)
+                if opts.get('runs') == 2:      # the same converter object used for an earlier output (another bit rate)
+                    conv.run('first.sgz', bits_per_voxel=4, blockshape=(4, 4, -1))
+                conv.run('out.sgz', bits_per_voxel=opts.get('bpv_in', rate), blockshape=opts.get('bs_in', bs))
+        except Exception as e:
+            if fp_model is None:
+                raise
+            # (float items: the path may be infeasible in the float world - decided with the full path condition)
+            E.check(False, 'numpy: the conversion of a valid source raised %s' % type(e).__name__)
+            return
         E.reached('numpy:converted')
         st = fs.stores['out.sgz']
         stored = sorted(set([189, 193] + [f for f, _ in hdr_fields]))
@@ -401,7 +434,9 @@ def numpy_item(bs, rate, nb, props, opts=None):
                     vox = r.read_subvolume(v[0], v[0] + 1, v[1], v[1] + 1, v[2], v[2] + 1)
                 E.reached('numpy:probe')
                 expect_source_voxel(E, st, vox.get((0, 0, 0)), v, dims, 'numpy: read-back voxel')
-            if 'C05' in props:
+            if 'C05' in props and fp_model is not None:
+                check_axes_fp(E, mm, st, fp_model, dims, 'numpy')
+            elif 'C05' in props:
                 check_axes(E, r, dims, il0, il_step, xl0, xl_step, z0, dz, 'numpy')
             if 'C04' in props:
                 check_headers_readback(E, r, dims, stored, hdrs, 'numpy')
@@ -1136,11 +1171,17 @@ def items_for(prop, tier):
                 for steps in ((2, 3), (-1, 1)):
                     ncfgs.append(dict(axes='sym', il_step=steps[0], xl_step=steps[1]))
                 ncfgs.append(dict(samples='sym'))
+                # binary64 sample axis on the NumPy route (no 2-byte SEG-Y field: intervals up to 65535 us)
+                for dtr, t0r, ns in ([((1, 4095), (-2, 2), 3), ((32768, 40959), (-1, 1), 3), ((65000, 65535), (-32768, -32760), 4)] if quick else
+                                     [((lo, min(lo + 4095, 65535)), (-4, 4), 3) for lo in range(1, 65535, 8192)] + [((65000, 65535), (-32768, -32700), 4), ((1, 999), (0, 0), 100)]):
+                    ncfgs.append(dict(samples='fp', dt_range=dtr, t0_range=t0r, fixed_dims=(2, 2, ns), cvc5_s=400 if quick else 900))
             for o in ncfgs:
-                desc = 'numpy|%s|bs=4x4x256|rate=8|nb=2x2x1|%s' % (prop, ','.join('%s=%s' % kv for kv in sorted(o.items())))
-                it = _I(desc, (lambda o=o: numpy_item((4, 4, 256), 8, (2, 2, 1), {prop}, o)), timeout_s=250 if quick else 600,
-                        solver_ms=10000 if quick else 60000)
-                it.meta = dict(kind='numpy', bs=[4, 4, 256], rate=8, nb=[2, 2, 1], opts=dict(o), prop=prop)
+                nb_ = (1, 1, 1) if o.get('fixed_dims') else (2, 2, 1)
+                isfp = o.get('samples') == 'fp'
+                desc = 'numpy|%s|bs=4x4x256|rate=8|nb=%s|%s' % (prop, 'x'.join(map(str, nb_)), ','.join('%s=%s' % kv for kv in sorted(o.items())))
+                it = _I(desc, (lambda o=o, nb_=nb_: numpy_item((4, 4, 256), 8, nb_, {prop}, o)),
+                        timeout_s=(1500 if quick else 3000) if isfp else (250 if quick else 600), solver_ms=10000 if quick else 60000)
+                it.meta = dict(kind='numpy', bs=[4, 4, 256], rate=8, nb=list(nb_), opts=dict(o), prop=prop)
                 items.append(it)
     if prop == 'C18':
         from .runner import Item as _I
